@@ -795,6 +795,13 @@ class Gen:
             ("integer, parameter :: kPar = %s" % self.int_lit(), "parameter_attr"),
             ("real(kind = 8) :: dblV", "decl_kind"),
             ("double precision :: dp2", "decl"),
+            # old-style declarations: no double colon, no attributes
+            ("double precision dpOldA, dpOldB(3)", "decl_old"),
+            ("real rOldA, rOldB(2, 2)", "decl_old"),
+            ("integer iOldA", "decl_old"),
+            ("character*8 cOldA, cOldB*4", "decl_old"),
+            ("logical lOldA(5)", "decl_old"),
+            ("complex zOldA", "decl_old"),
             ("complex :: cplxZ", "decl"),
             ("integer(kind = 4), dimension(3) :: ivA = (/ 1, 2, 3 /)", "decl_init"),
             ("real, save :: svR = 1.0e-3", "decl_init"),
@@ -892,7 +899,9 @@ class Gen:
                                "format (bn, i4, bz, i4, tl2, tr3, 3(1x, i2), '(lit)', //, a10)",
                                "format ('it''s', 1x, es12.4e2, en10.3, g12.5, l2, b8.4, o6, z8, d10.3)",
                                "format (e10.3e2, g12.5e3, 2p, f8.2, a, i0, f0.3, 1x, i5.3)",
-                               "format (2(1x, 3(i2, ','), a), dc, f6.2, dp, ru, f6.2, rz, f5.1)"]),
+                               "format (2(1x, 3(i2, ','), a), dc, f6.2, dp, ru, f6.2, rz, f5.1)",
+                               "format (dt, dt'pnt', dt'pnt'(3, -2), dt(10, 2), 2dt(4), i3, 3(dt(12, 4), 2x))",
+                               "format (i3.2, b8.8, o4.1, z6.6, a5, l1, 2x, f0.0, e15.7e3, en12.3, es9.2, g10.3e2)"]),
                       label=900, kind="format")
         if self.p(0.12):
             self.emit("sfun(zz) = zz * 2.0 + %s" % self.real_lit(), kind="stmt_function")
